@@ -5,4 +5,4 @@ Require Import ExtrOcamlBasic.
 From OFGA Require Import Check.V1 Query.ListObjects.
 Extraction Language OCaml.
 Extraction "c05_model.ml" lfp atomval stratified check_top valid_for_read final_levels
-  evaluate_nat nofurther_sound_nat complete_nat nodupb_nat same_set_nat attempts_nat distinct_objs_nat.
+  evaluate_nat nofurther_sound_nat complete_nat nodupb_nat same_set_nat attempts_nat distinct_objs_nat execute_nat pipeline_recv_nat.
